@@ -33,7 +33,11 @@ static inline int chance(unsigned pct) { return rnd(100) < pct; }
 
 /* per-case reseeding makes any case replayable on its own */
 static inline void lpv_begin_case(uint64_t seed, long idx) {
-  lpv_state = seed * 0x2545F4914F6CDD1DULL + (uint64_t)idx * 0x9E3779B97F4A7C15ULL + 0x1234567ULL;
+  /* hashed start point: the stream of case i must not be a shifted copy of the stream of case i+1 (splitmix64 advances its
+     state by a fixed constant, so any affine function of idx would make all cases windows of one sequence) */
+  uint64_t z = (seed * 0x2545F4914F6CDD1DULL) ^ (((uint64_t)idx + 0x632BE59BD9B4E019ULL) * 0xD6E8FEB86659FD93ULL);
+  z = (z ^ (z >> 32)) * 0xD6E8FEB86659FD93ULL; z = (z ^ (z >> 32)) * 0xD6E8FEB86659FD93ULL; z ^= z >> 32;
+  lpv_state = z;
   rnd64(); rnd64();
   lpv_case = idx;
   lpv_cur[0] = 0;
